@@ -267,6 +267,18 @@ def hs(*names):
     return [ALL[n] for n in names]
 
 
+# trusted dealer (fpre.rs): the synchronous loops between its awaits
+for _n in (2, 3, 4, 5):
+    H("fpre", f"c10_fpre_and_plain_n{_n}", needs_segment=["fpre_and_plain"],
+      what="dealer: c = (XOR_i a_i) & (XOR_i b_i) over ALL parties' submitted shares", bounds=f"{_n} parties, all bit values", functions=["mpc::fpre::fpre (AND section: reconstruction of a, b, c)"], panic_prop="C10")
+for _n in (2, 3):
+    H("fpre", f"c10_fpre_and_deal_n{_n}", needs_segment=["fpre_and_deal"],
+      what="dealer: the dealt AND shares XOR to c and every share carries MAC = key ^ bit*delta under every other party's key", bounds=f"{_n} parties, one gate, all coins / deltas symbolic", functions=["mpc::fpre::fpre (AND section: sharing of c)"], panic_prop="C10", stubs=["rand::random -> arbitrary value per call"], est_gb=2)
+    H("fpre", f"c10_fpre_random_deal_n{_n}", needs_segment=["fpre_random_deal"],
+      what="dealer: every dealt random share has one (MAC, key) slot per party and MAC = key ^ bit*delta under every other party's key", bounds=f"{_n} parties, one share, all coins / deltas symbolic", functions=["mpc::fpre::fpre (random-share loop body)"], panic_prop="C10", stubs=["rand::random -> arbitrary value per call"], est_gb=2)
+H("fpre", "c04_fpre_dealer_detects_inconsistent_shares_n2", needs_segment=["fpre_cheat_check"],
+  what="dealer: submitted AND-gate shares are accepted only if every non-zero MAC verifies under the key the other party submitted", bounds="2 parties, one gate, all values symbolic", functions=["mpc::fpre::fpre (consistency check of submitted shares)"], panic_prop="C04", est_gb=6)
+
 # C14 / C16 (partial): polytune-server-core state machine, decision points cut from the async handlers
 SC = "crates/polytune-server-core/src/state.rs"
 RS = "std::collections::hash_map::RandomState::new -> fixed keys via #[kani::stub] (getrandom is a syscall; all maps stay empty)"
@@ -298,6 +310,15 @@ H("state", "c16_schedule_after_validate_same_program", needs_segment=["sc_schedu
   what="other arrival order (validate first, then the follower's schedule), same hash: leader equal -> Ok for both + Validated + endpoints created once; different -> LeaderMismatch for both callers, Break", bounds="leader indices < 3 symbolic on both sides", functions=["state::PolicyState::schedule (follower branch)"], panic_prop="C16", stubs=[RS], est_gb=2)
 H("state", "c16_schedule_after_validate_other_program", needs_segment=["sc_schedule"],
   what="same with a different program hash: validate caller gets an error, schedule caller never Ok, Break", bounds="leader indices < 3 symbolic; hashes 'a' vs 'b'", functions=["state::PolicyState::schedule (follower branch)"], panic_prop="C16", stubs=[RS, "Policy::program_hash (BLAKE3) -> one of two one-byte strings"], est_gb=3)
+
+
+# C17 (partial): what the leader / the constants task do when an RPC round fails
+POLL = "`.await` inside these cuts = one poll with a no-op waker; every awaited future is an environment future that is ready at once (joined RPC round = arbitrary Ok/Err, stand-in semaphore / command queue / client that record what they are asked)"
+for _o in ("without", "with"):
+    H("state", f"c17_leader_rpc_failures_{_o}_output_destination", needs_segment=["sc_leader_rpcs"],
+      what="leader's schedule() behind the validate round: failed validate round -> caller gets ValidateFailed, no permit kept, Break; failed run round -> Break, the permit taken before the round is returned, exactly one error to the output destination if there is one, no hand-over to run(); all fine -> one permit held, Validated, Run enqueued", bounds=f"policy {_o} output destination; validate/run round results symbolic", functions=["state::PolicyState::schedule (leader branch behind the creation of the validate futures, without the statement that creates the run futures)"], panic_prop="C17", stubs=[RS], est_gb=3)
+    H("state", f"c17_consts_rpc_failure_{_o}_output_destination", needs_segment=["sc_consts_task"],
+      what="constants task of run(): failed constants round -> exactly one error to the output destination if there is one, and the policy ends at this party (Stop/Cancel reported, or the client not handed back) instead of InternalConstsSent as after success", bounds=f"policy {_o} output destination; round result symbolic", functions=["state::PolicyState::run (spawned constants task behind the creation of the RPC futures)"], panic_prop="C17", stubs=[RS], est_gb=3)
 
 
 def by_prefix(*prefixes, tier=None):
@@ -346,7 +367,7 @@ PROPS["C04"] = dict(
     explanation="Segment harnesses over check_dvalue, fashare (3c, 3d), beaver_aand.",
     outside="n=2; orderings over message histories and coin-toss reuse are outside the technique's reach.",
     assumptions=[FMT, TRACING, SEG, N2, "open_commitment(..) -> arbitrary bool inside the fashare_3d segment (textual substitution)", "RHO shadowed by a local const 2 inside the fashare segments"],
-    segments=["check_dvalue_tail", "fashare_3c", "fashare_3d", "beaver_check", "bcast_verify_tail", "flaand_tail", "fabitn_check", "kos_check", "shared_rng_open"],
+    segments=["check_dvalue_tail", "fashare_3c", "fashare_3d", "beaver_check", "bcast_verify_tail", "flaand_tail", "fabitn_check", "kos_check", "shared_rng_open", "fpre_cheat_check"],
     harnesses=hs("c04_check_dvalue_tail_n2_b3", "c04_check_dvalue_tail_n3_b2", "c07_fashare_3c_n2__c04", "c04_fashare_3d_n2", "c04_beaver_check_n2", "c04_bcast_verify_tail_n3", "c04_flaand_tail_n2", "c04_fabitn_check_n2", "c04_kos_check", "c04_shared_rng_open_n2", "c04_beaver_check_n4"),
 )
 
@@ -407,12 +428,12 @@ PROPS["C09"] = dict(
 
 PROPS["C10"] = dict(
     level="model_checking",
-    level_text="Bounded model checking of the algebraic core of preprocessing with all bits, MACs, keys and global keys symbolic at full 128-bit width: share XOR, key helpers, bucket size table, the bucket-combination step as an inductive step (covers buckets of any size), the fold order, the bit/element pairing of the aBit linear-combination helper, Beaver reconstruction.",
-    level_note="Partial: algebraic core. Not covered: aBit/aShare/LaAND end to end (OT, hashes, async), trusted dealer, identical shared coins.",
+    level_text="Bounded model checking of the algebraic core of preprocessing with all bits, MACs, keys and global keys symbolic at full 128-bit width: share XOR, key helpers, bucket size table, the bucket-combination step as an inductive step (covers buckets of any size), the fold order, the bit/element pairing of the aBit linear-combination helper, Beaver reconstruction; the trusted dealer (fpre): c = AND of the inputs reconstructed from ALL parties (n = 2..5), dealt shares XOR to c and carry pairwise-valid MACs (n = 2, 3).",
+    level_note="Partial: algebraic core + the trusted dealer's synchronous loops (one share / one gate each). Not covered: aBit/aShare/LaAND end to end (OT, hashes, async), the dealer's message rounds and its length agreement checks, identical shared coins.",
     explanation="Kani/CBMC on data_types operators, combine_two_leaky_ands, combine_bucket, bucket_size, chunked_update_with_rbits, beaver tail segment.",
     outside="n <= 3 (4 for XOR); stated length classes of chunked_update_with_rbits.",
     assumptions=[FMT, TRACING, "pairwise IT-MAC relation assumed on inputs (representation invariant)", SEG],
-    segments=["beaver_check", "beaver_final", "check_dvalue_tail", "garbler_rows", "evaluator_rows", "garbler_row_labels", "fabitn_result", "faand_combine", "fashare_3a", "fashare_3c", "fashare_3d"],
+    segments=["beaver_check", "beaver_final", "check_dvalue_tail", "garbler_rows", "evaluator_rows", "garbler_row_labels", "fabitn_result", "faand_combine", "fashare_3a", "fashare_3c", "fashare_3d", "fpre_and_plain", "fpre_and_deal", "fpre_random_deal"],
     harnesses=by_prefix("c10_") + hs("c04_beaver_check_n4__c10", "c04_beaver_check_n2__c10", "c04_check_dvalue_tail_n2_b3__c10", "c07_fashare_3c_n2__c10", "c01_and_gate_table_n2__c10"),
 )
 
@@ -473,10 +494,19 @@ PROPS["C16"] = dict(
     harnesses=by_prefix("c16_"),
     segments=["sc_schedule", "sc_validate"],
 )
+PROPS["C17"] = dict(
+    level="model_checking",
+    level_text="Bounded model checking of the second sentence of C17 at its decision points: what the leader's schedule() does with the joined result of the validate round and of the run round, and what the constants task of run() does with the joined result of the constants round - cut from the async code on every run, the round results arbitrary, with and without an output destination: a failed round ends the policy at the caller (Break / Stop), the permit taken before the run round is returned, the output destination gets exactly one error if there is one; successful rounds keep exactly one permit and hand over to run().",
+    level_note="Partial: the three RPC-failure decision points. NOT covered: the first sentence (never more concurrent leader computations than the budget; the whole budget available after quiescence) - a statement about tokio's Semaphore across tasks and about all ways a policy can end (MPC error, cancel), see not-applicable reasons of C13/C15. " + SEG,
+    explanation="Kani/CBMC on statement runs cut from state.rs (schedule leader branch, constants task of run).",
+    outside="permit accounting over whole runs and several policies; failures inside the MPC task; cancel.",
+    assumptions=[FMT, TRACING, RS, ANS, ENVST, POLL],
+    harnesses=by_prefix("c17_"),
+    segments=["sc_leader_rpcs", "sc_consts_task"],
+)
 NOT_APPLICABLE = {
     "C12": "a property of interleavings of several parties' futures; Kani has no concurrency model and the join/scatter layer alone exhausts memory",
     "C13": "a statement about all interleavings of several tokio actors (mpsc/oneshot/Notify/Semaphore, spawn, Garble compiler) ending in one correct result each; Kani has no concurrency model, tokio mpsc cannot even be created under it (futex), and the single-handler decision points that can be cut (see C14, C16) do not add up to this liveness/result claim",
     "C15": "cancellation races are interleavings of the actor with the spawned MPC task over tokio::sync::Notify; no single-handler statement run decides them",
-    "C17": "semaphore permits held across tokio tasks and failure injection into awaited RPCs inside async closures; tokio Semaphore/mpsc cannot be created under Kani (futex)",
     "C19": "the file variant is tempfile + BufWriter/BufReader over one shared OS file offset with seek in Drop; Kani has no file-system model",
 }
